@@ -342,6 +342,30 @@ Theorem C11_label_pipeline : forall V (veqb : V -> V -> bool) (dflt : V), eq_dec
 Proof. exact @label_pipeline_spec. Qed.
 Print Assumptions C11_label_pipeline.
 
+(* add_unmatched does what it is for: afterwards every segment start inside the event range has a sensor event
+   within match_dist dumps; an unmatched start (all events further away than match_dist) has an event exactly there *)
+Theorem C11_add_unmatched_post : forall V (veqb : V -> V -> bool) (dflt : V) (c : cd) segs d s,
+  WF c -> In s segs -> hd 0 (ev c) <= s -> s < ndumps c ->
+  exists e, In e (ev (add_unmatched veqb c segs d)) /\ absd s e <= d /\
+            (d < list_min (map (absd s) (ev c)) -> e = s).
+Proof. exact @add_unmatched_post. Qed.
+Print Assumptions C11_add_unmatched_post.
+
+(* align: "there cannot be more sensor events than segments" *)
+Theorem C11_align_count : forall V (dflt : V) (c : cd) segs c', WF c -> incr segs -> align dflt c segs = Some c' ->
+  length (ev c') <= length segs /\ S (cat_len c') <= length segs.
+Proof. exact @align_count. Qed.
+Print Assumptions C11_align_count.
+
+(* unique_in_order, the fallback loop for unhashable elements (dict of tokens -> index, unique_elements.append,
+   inverse.append) computes first occurrences in original order and their inverse, exactly like the dict path,
+   whenever equal tokens mean equal values *)
+Theorem C11_unique_in_order_fallback : forall V K (veqb : V -> V -> bool) (keqb : K -> K -> bool) (tok : V -> K),
+  eq_dec_spec veqb -> eq_dec_spec keqb -> (forall a b, tok a = tok b -> a = b) ->
+  forall l, uio_tok keqb tok l = (unique_in_order veqb l, inverse_of veqb (unique_in_order veqb l) l).
+Proof. exact @uio_tok_spec. Qed.
+Print Assumptions C11_unique_in_order_fallback.
+
 (* tie, functions: the decision expressions of _lookup / add / remove / partition / remove_repeats written with the
    operators, constants and searchsorted sides re-read from the source ARE the model functions, for all arguments *)
 Theorem C11_source_functions : forall V (veqb : V -> V -> bool),
@@ -445,3 +469,10 @@ Example C11_example_mirrors :
   option_map ev (rr_g (mk [7; 8] [0; 0; 1; 1; 0] [0; 1; 2; 3; 4; 5])) = Some [0; 2; 4; 5].
 Proof. exact ex_mirrors. Qed.
 Print Assumptions C11_example_mirrors.
+
+Example C11_example_more :
+  ev (add_unmatched Nat.eqb ex_c [0; 4; 8; 10] 1) = [0; 2; 5; 6; 8; 10] /\
+  option_map (fun c => length (ev c)) (align 0 ex_c [0; 4; 10]) = Some 3 /\
+  uio_tok Nat.eqb (fun x : nat => x) [7; 8; 7; 9; 8] = ([7; 8; 9], [0; 1; 0; 2; 1]).
+Proof. exact ex_more. Qed.
+Print Assumptions C11_example_more.
